@@ -24,9 +24,9 @@ def prechecks(tier):
 
 def plan(tier, seed):
     parts = []
-    cfgs = [("ax_k", 2)] if tier == "quick" else [("ax_k", 2), ("ax", 3), ("axy", 2)]
+    cfgs = [("ax_k", 2), ("rootk", 2), ("ax_xk", 2)] if tier == "quick" else [("ax_k", 2), ("rootk", 2), ("ax_xk", 2), ("ax", 3), ("axy", 2)]
     for u, n in cfgs:
-        for fu in range(10):
+        for fu in (range(12) if u == "ax_k" else (0, 2, 10, 11, 3)):
             parts.append(Part(H, "stub", {"n": n, "u": u, "fu": fu}, 900 if tier == "quick" else 5000, 120,
                               "stub skeleton == real; no data in stub; merge refused; stub-made patch accepted by the real record with the same result as the direct update; manifest == container after every commit; extensions persist", weight=n))
     return parts
